@@ -1,6 +1,7 @@
 package main
 
 import (
+	"fmt"
 	"go/ast"
 	"go/token"
 	"strings"
@@ -10,6 +11,157 @@ func extractAll(f *facts, v1, v2 *pkg, repo string) {
 	bufferFacts(f, v2)
 	enqueueFacts(f, "v1", v1, "batcher.go", "Batcher")
 	enqueueFacts(f, "v2", v2, "batcher.go", "batcher")
+	// control-flow shape of the functions the Batcher machine mirrors: every `if`/`for`/`case` condition, in source order
+	for _, fn := range []string{"applyDefaults", "Pause", "resume", "Flush", "Start", "Stop", "incTarget", "trySetTargetToZero"} {
+		shapeFact(f, "v1_shape_"+fn, v1, "batcher.go", "Batcher", fn)
+	}
+	for _, fn := range []string{"applyDefaults", "Pause", "resume", "Flush", "Start", "shutdown", "incTarget", "confirmTargetIsZero",
+		"confirmInflightIsZero", "tryReserveBatchSlot", "releaseBatchSlot", "processBatch", "Inflight"} {
+		shapeFact(f, "v2_shape_"+fn, v2, "batcher.go", "batcher", fn)
+	}
+	for _, fn := range []string{"size", "top", "skip", "remove", "enqueue", "shutdown"} {
+		shapeFact(f, "v2_shape_buffer_"+fn, v2, "buffer.go", "buffer", fn)
+	}
+	defaultsFact(f, "v1", v1, "Batcher")
+	defaultsFact(f, "v2", v2, "batcher")
+	setterGuards(f, v2)
+}
+
+// shapeFact lists, in source order, the conditions of every if / for / switch-case / select-case of a function,
+// plus the names of the functions it calls. A change of a comparison operator, a dropped branch, a reordered
+// check or a dropped call changes the list.
+func shapeFact(f *facts, name string, p *pkg, file, recv, fn string) {
+	fd := p.fn(file, recv, fn)
+	if fd == nil || fd.Body == nil {
+		f.strList(name, []string{"<missing>"})
+		f.errs = append(f.errs, name+": function not found")
+		return
+	}
+	var out []string
+	ast.Inspect(fd.Body, func(x ast.Node) bool {
+		switch n := x.(type) {
+		case *ast.IfStmt:
+			out = append(out, "if "+p.str(n.Cond))
+		case *ast.ForStmt:
+			if n.Cond != nil {
+				out = append(out, "for "+p.str(n.Cond))
+			} else {
+				out = append(out, "for")
+			}
+		case *ast.RangeStmt:
+			out = append(out, "range "+p.str(n.X))
+		case *ast.CaseClause:
+			if len(n.List) == 0 {
+				out = append(out, "default")
+			} else {
+				var cs []string
+				for _, e := range n.List {
+					cs = append(cs, p.str(e))
+				}
+				out = append(out, "case "+strings.Join(cs, ", "))
+			}
+		case *ast.CommClause:
+			if n.Comm == nil {
+				out = append(out, "select-default")
+			} else {
+				out = append(out, "select "+oneLine(p.str(n.Comm)))
+			}
+		case *ast.CallExpr:
+			if _, ok := n.Fun.(*ast.FuncLit); ok {
+				out = append(out, "call <func literal>")
+			} else {
+				out = append(out, "call "+p.str(n.Fun))
+			}
+		case *ast.GoStmt:
+			out = append(out, "go")
+		case *ast.DeferStmt:
+			out = append(out, "defer")
+		case *ast.ReturnStmt:
+			out = append(out, "return")
+		case *ast.BranchStmt:
+			out = append(out, n.Tok.String()+" "+labelOf(n))
+		case *ast.IncDecStmt:
+			out = append(out, p.str(n.X)+n.Tok.String())
+		case *ast.AssignStmt:
+			out = append(out, oneLine(p.str(n.Lhs[0]))+" "+n.Tok.String())
+		}
+		return true
+	})
+	f.strList(name, out)
+}
+
+func labelOf(n *ast.BranchStmt) string {
+	if n.Label != nil {
+		return n.Label.Name
+	}
+	return ""
+}
+
+func oneLine(s string) string {
+	if i := strings.Index(s, "\n"); i >= 0 {
+		s = s[:i]
+	}
+	return strings.TrimSpace(s)
+}
+
+// applyDefaults: `if r.X <= 0 { r.X = N * time.Unit }` -> (field, nanoseconds)
+func defaultsFact(f *facts, gen string, p *pkg, recv string) {
+	fd := p.fn("batcher.go", recv, "applyDefaults")
+	units := map[string]int64{"Nanosecond": 1, "Microsecond": 1000, "Millisecond": 1000000, "Second": 1000000000, "Minute": 60000000000, "Hour": 3600000000000}
+	var out []string
+	if fd != nil {
+		for _, st := range fd.Body.List {
+			is, ok := st.(*ast.IfStmt)
+			if !ok || len(is.Body.List) != 1 {
+				continue
+			}
+			as, ok := is.Body.List[0].(*ast.AssignStmt)
+			if !ok || len(as.Rhs) != 1 {
+				continue
+			}
+			be, ok := as.Rhs[0].(*ast.BinaryExpr)
+			if !ok {
+				continue
+			}
+			lit, ok1 := be.X.(*ast.BasicLit)
+			sel, ok2 := be.Y.(*ast.SelectorExpr)
+			if !ok1 || !ok2 {
+				continue
+			}
+			var n int64
+			fmt.Sscan(lit.Value, &n)
+			out = append(out, fmt.Sprintf("%s|%s|%d", p.str(is.Cond), p.str(as.Lhs[0]), n*units[sel.Sel.Name]))
+		}
+	}
+	f.strList(gen+"_defaults", out)
+}
+
+// v2 With* setters: which of them refuse (panic) once the phase is not uninitialized
+func setterGuards(f *facts, v2 *pkg) {
+	var guarded, unguarded []string
+	file := v2.files["batcher.go"]
+	if file != nil {
+		for _, d := range file.Decls {
+			fd, ok := d.(*ast.FuncDecl)
+			if !ok || fd.Recv == nil || !strings.HasPrefix(fd.Name.Name, "With") {
+				continue
+			}
+			g := false
+			ast.Inspect(fd.Body, func(x ast.Node) bool {
+				if is, ok := x.(*ast.IfStmt); ok && strings.Contains(v2.str(is.Cond), "phase != phaseUninitialized") && containsCall(v2, is.Body, "panic") {
+					g = true
+				}
+				return true
+			})
+			if g {
+				guarded = append(guarded, fd.Name.Name)
+			} else {
+				unguarded = append(unguarded, fd.Name.Name)
+			}
+		}
+	}
+	f.strList("v2_guardedSetters", guarded)
+	f.strList("v2_unguardedSetters", unguarded)
 }
 
 // containsCall reports whether n contains a call whose printed function expression ends with suffix.
